@@ -2,7 +2,7 @@
 
     The first theorems are about component lists; the text-level rewritings (comments, blank lines, header, BOM,
     white space, CR LF, explicit id 0) are theorems about the reader (Model/Parse.v) further down. *)
-From Cteepbd Require Import Model.Balance Model.Components Proofs.ColFacts Proofs.EpFacts Proofs.DataEquiv Proofs.NormFacts.
+From Cteepbd Require Import Model.Balance Model.Components Proofs.ColFacts Proofs.EpFacts Proofs.DataEquiv Proofs.NormFacts Proofs.WfFacts Proofs.NormPerm.
 From Coq Require Import Permutation.
 Open Scope Qc_scope.
 
@@ -11,6 +11,24 @@ Theorem C10_reorder : forall n meta nd fs k area lm d d',
   wf n d -> Permutation d d' ->
   ep_same (energy_performance (mkComponents meta d nd) fs k area lm) (energy_performance (mkComponents meta d' nd) fs k area lm).
 Proof. intros. apply (equiv_energy_performance n). now apply perm_equiv. Qed.
+
+(** from the declared components: the normalised list of a reordered list of components is a permutation of the
+    normalised list (or the same error) — completions and reassigned auxiliary components only depend on per-system
+    sums, the systems can be processed in any order, the final sort is stable — hence the same evaluation *)
+Theorem C10_normalize_reorder : forall n data data', Permutation data data' -> wf n data ->
+  match normalize_data data, normalize_data data' with
+  | Ok d, Ok d' => Permutation d d' | Err a, Err b => a = b | _, _ => False end.
+Proof. exact normalize_data_perm. Qed.
+
+Theorem C10_reorder_declared : forall n meta nd fs k area lm data data' d,
+  Permutation data data' -> wf n data -> normalize_data data = Ok d ->
+  exists d', normalize_data data' = Ok d' /\
+    ep_same (energy_performance (mkComponents meta d nd) fs k area lm) (energy_performance (mkComponents meta d' nd) fs k area lm).
+Proof.
+  intros n meta nd fs k area lm data data' d P W H. pose proof (normalize_data_perm n data data' P W) as R. rewrite H in R.
+  destruct (normalize_data data') as [d'|]; [|contradiction]. exists d'. split; [reflexivity|].
+  apply (equiv_energy_performance n). apply perm_equiv; [exact (normalize_wf n data d W H)|exact R].
+Qed.
 
 (** splitting one component into two with the same tags whose values add up (ids and comments free) *)
 Theorem C10_split : forall n meta nd fs k area lm pre post e v1 v2 i1 i2,
@@ -42,6 +60,8 @@ Theorem C10_sorted : forall l, sorted_by_id (sort_by_id l) /\ forall i, filter (
 Proof. intros l. split; [apply sort_by_id_sorted|intros; apply sort_by_id_stable]. Qed.
 
 Print Assumptions C10_reorder.
+Print Assumptions C10_normalize_reorder.
+Print Assumptions C10_reorder_declared.
 Print Assumptions C10_split.
 Print Assumptions C10_rename_balance.
 Print Assumptions C10_completion_order_independent.
